@@ -2,6 +2,7 @@ package srvlab
 
 import (
 	"fmt"
+	"strings"
 	"time"
 
 	"verif/core"
@@ -372,7 +373,7 @@ func histCases(prop, tier string, seed int64) []core.Case {
 		for _, dotu := range []bool{false, true} {
 			dotu := dotu
 			cases = append(cases, core.Case{ID: fmt.Sprintf("invalidated-under-a-request/dotu=%v", dotu), Run: func(ctx *core.Ctx) core.Result {
-				return runInvalidatedUnder(dotu)
+				return runInvalidatedUnder("C04", dotu)
 			}})
 		}
 	}
@@ -511,7 +512,7 @@ func runRandomHist(prop string, seed int64, idx, steps int) core.Result {
 			st = &Step{Msg: &wire.Msg{Type: wire.Twstat, Fid: fid, Stat: wire.Stat{Name: fmt.Sprintf("w%d", i), Mode: 0o640, Nuid: 5, Ngid: 6, Nmuid: 7}}, Plan: plan}
 		}
 		st.Conn = ci
-		if prop == "C04" && r.Intn(5) == 0 {
+		if r.Intn(5) == 0 {
 			st.LateFlush = true
 		}
 		before := h.Tabs[ci].StateKey(h.Alphabet)
@@ -596,7 +597,7 @@ func runNamedUsers(dotu bool) core.Result {
 // Rremove the number is invalid (unknown fid, not forwarded) and free to be bound again; the implementation has been
 // told about the old object by then; when the slow request finally finishes, the new fid bound to the same number is
 // untouched; at the disconnect every object was reported destroyed exactly once.
-func runInvalidatedUnder(dotu bool) core.Result {
+func runInvalidatedUnder(prop string, dotu bool) core.Result {
 	var res core.Result
 	for round := 0; round < 12 && len(res.Violations) < 3; round++ {
 		s := NewSess(Config{Dotu: dotu, Msize: 8192, Maxpend: []int{0, 4}[round%2], ProcOps: round%4 == 3})
@@ -621,7 +622,10 @@ func runInvalidatedUnder(dotu bool) core.Result {
 		}
 		what := fmt.Sprintf("round %d", round)
 		fail := func(sig, msg string) {
-			res.Violate("C04;invalidated-under-a-request;"+sig, msg+" ["+what+"]", map[string]interface{}{"dotu": dotu, "round": round})
+			if prop == "C11" && !strings.HasPrefix(sig, "destroy-count") {
+				return // C11 only judges what the disconnect leaves behind
+			}
+			res.Violate(prop+";invalidated-under-a-request;"+sig, msg+" ["+what+"]", map[string]interface{}{"dotu": dotu, "round": round})
 		}
 		if a := rpc(&wire.Msg{Type: wire.Tattach, Fid: 0, Afid: wire.NOFID, Uname: "root", Nuname: 0}); a == nil || a.Type != wire.Rattach {
 			res.Inconclusive = "c04: attach failed"
